@@ -354,7 +354,12 @@ func ConvertProjectedPointListToPointList(
 		}
 
 		// 変換後の座標を持つ投影座標用インスタンスを戻り値に格納
-		newPoint, _ := object.NewPoint(x, y, p.Alt)
+		newPoint, err := object.NewPoint(x, y, p.Alt)
+		if err != nil {
+			// 変換後の座標が緯度経度の範囲外の場合エラーインスタンスを返却
+			return pointList,
+				errors.NewSpatialIdError(errors.ValueConvertErrorCode, "")
+		}
 		pointList = append(pointList, newPoint)
 	}
 
